@@ -334,22 +334,11 @@ pub(crate) fn convert_doc(svg_doc: &svgtree::Document, opt: &Options) -> Result<
         opt.fontdb.clone(),
     );
 
+    // Generated ids must not collide with an id of any element,
+    // since ids of all elements are preserved.
     for node in svg_doc.descendants() {
-        if let Some(tag) = node.tag_name() {
-            if matches!(
-                tag,
-                EId::ClipPath
-                    | EId::Filter
-                    | EId::LinearGradient
-                    | EId::Mask
-                    | EId::Pattern
-                    | EId::RadialGradient
-                    | EId::Image
-            ) {
-                if !node.element_id().is_empty() {
-                    cache.all_ids.insert(string_hash(node.element_id()));
-                }
-            }
+        if !node.element_id().is_empty() {
+            cache.all_ids.insert(string_hash(node.element_id()));
         }
     }
 
